@@ -21,7 +21,9 @@ RULE = (
     "tasks whose last durable change was a logged step; (b) for EVERY sequence number s of the log, rebuild(as_of=s) == "
     "rebuild() on a copy of the database with events > s deleted; (c) for every snapshot position p, rebuild() and "
     "rebuild(as_of>=p) from snapshot+later events == snapshot-free result. (d) concurrent histories: the same classes run by "
-    "2-4 worker threads interleaved at SQL-statement granularity (random / PCT), oracle (a) on the drained result. "
+    "2-4 worker threads interleaved at SQL-statement granularity (random / PCT, a concurrent cancel thread for the cancel "
+    "classes), and CancelStage x CompleteStage / CompleteTask handler pairs under every schedule with <= 2 preemptions "
+    "(sampled); oracle (a) on the drained result. "
     "Non-trivial = run with >= 5 events; distinct = "
     "(outcome class, workflow status, multiset of stage statuses)."
 )
@@ -30,7 +32,7 @@ ASSUMPTIONS = [
     "tasks ended by CancelStage / SKIPPED / suspended have no task-level event by construction: counted, not compared",
     "stages whose last status was written by a jump (force-marked) or RestartStage are excluded, as the statement excludes them",
 ]
-MIN_OBS = {"prefix_rebuilds": {"quick": 2000, "thorough": 20000}, "snapshot_rebuilds": {"quick": 2000, "thorough": 20000}, "entities_compared": {"quick": 1000, "thorough": 10000}, "interleaved_runs": {"quick": 50, "thorough": 600}}
+MIN_OBS = {"prefix_rebuilds": {"quick": 2000, "thorough": 20000}, "snapshot_rebuilds": {"quick": 2000, "thorough": 20000}, "entities_compared": {"quick": 1000, "thorough": 10000}, "interleaved_runs": {"quick": 50, "thorough": 600}, "cancel_x_completion_schedules_with_switch": {"quick": 100, "thorough": 1500}}
 TIMEOUT = {"quick": 600, "thorough": 3000}
 
 CLASSES = ["success", "multitask", "terminal", "fc", "skip", "orsplit", "cancel", "loop", "suspend", "synthetic", "random", "first_of", "cancel_fail"]
@@ -72,6 +74,8 @@ def gen_cases(tier: str, seed: int) -> list[dict]:
     cases = [{"i": i, "cls": CLASSES[i % len(CLASSES)], "seed": seed} for i in range(n)]
     for i in range(60 if tier == "quick" else 700):
         cases.append({"kind": "race", "i": i, "cls": CLASSES[i % len(CLASSES)], "seed": seed})
+    for variant in range(3):
+        cases.append({"kind": "pair", "variant": variant, "seed": seed, "sample": 80 if tier == "quick" else 1200})
     return cases
 
 
@@ -139,10 +143,17 @@ def _race(case: dict) -> dict:
     from .. import interleave as il
 
     rng = random.Random(case["seed"] * 6007 + case["i"])
-    cls = case["cls"] if case["cls"] not in ("cancel", "suspend", "cancel_fail") else "random"
+    cls = case["cls"] if case["cls"] != "suspend" else "random"
     spec = _spec(cls, rng)
-    pol = il.RandomPolicy(rng.randrange(1 << 30), switch_p=rng.choice([0.1, 0.3, 0.5])) if case["i"] % 3 else il.PCT(rng.randrange(1 << 30), d=rng.choice([2, 3, 5]), horizon=rng.choice([400, 1500]))
-    run, info = il.run_workers(spec, rng.choice([2, 3, 4]), pol, events=True, keep_world=True, watchdog=120.0)
+    injector = None
+    if cls in ("cancel", "cancel_fail"):
+        # the operator's cancel arrives from its own thread at a random point: CancelStage handlers race the
+        # completion handlers of the stages they cancel
+        def injector(w, sched, stop):
+            il.idle_points(sched, rng.randrange(0, 300), stop)
+            w.cancel()
+
+    run, info = il.race_run(spec, rng, events=True, keep_world=True, injector=injector)
     obs: Counter = Counter({"evaluations": 1})
     out: list[dict] = []
     keys: set = set()
@@ -180,9 +191,91 @@ def _race(case: dict) -> dict:
     return {"violations": uniq, "obs": dict(obs), "keys": sorted(keys)}
 
 
+def _pair(case: dict) -> dict:
+    """CancelStage(X) x CompleteStage(X) (or x CompleteTask of X's last task) as the two designated handler
+    invocations, event sourcing on, every schedule with <= 2 preemptions (sampled): whichever of the two wins,
+    the log must tell the same story as the store."""
+    import json as _json
+
+    from .. import interleave as il
+    from ..world import World
+
+    variant = case["variant"]
+    spec = [specs.chain(2), specs.diamond(), specs.multitask()][variant]
+    other_type = "CompleteStage" if variant != 2 else "CompleteTask"
+    w = World(events=True)
+    cut = None
+    try:
+        w.submit(spec)
+        for _ in range(200):
+            rows = w.rows()
+            if not rows:
+                break
+            tgt = [r for r in rows if r["type"] == other_type]
+            if tgt and w.snapshot_state()["wf"] == "RUNNING" and len(w.handled) > 6:
+                sid = _json.loads(tgt[0]["payload"]).get("stage_id")
+                w.cancel()
+                cw = [r for r in w.rows() if r["type"] == "CancelWorkflow"]
+                if cw:
+                    w.deliver(cw[0]["id"])
+                cs = [r for r in w.rows() if r["type"] == "CancelStage" and _json.loads(r["payload"]).get("stage_id") == sid]
+                if not cs:
+                    break
+                path = os.path.join(env.scratch_dir(), f"cut-{os.getpid()}-{random.randrange(1 << 40)}.db")
+                w.store._get_connection().commit()
+                w.copy_db(path)
+                cut = (path, [cs[0]["id"], tgt[0]["id"]])
+                break
+            w.deliver(w.eligible(rows)[0]["id"])
+    finally:
+        w.close()
+    obs: Counter = Counter()
+    keys: set = set()
+    out: list[dict] = []
+    if cut is None:
+        return {"violations": [], "obs": {"cut_point_not_reached": 1}, "keys": []}
+    db, rows = cut
+    try:
+        na, nb = il.solo_length(db, rows[0], events=True), il.solo_length(db, rows[1], events=True)
+        rng = random.Random(case["seed"] * 89 + variant)
+        for sc in il.bound_schedules(na, nb, 2, sample=case["sample"], rng=rng):
+            run, info = il.run_pair(db, rows, il.Segments(sc), events=True, keep_world=True)
+            obs["evaluations"] += 1
+            w2 = info.pop("world", None)
+            if run is None or w2 is None:
+                obs["scheduler_watchdog"] += 1
+                continue
+            try:
+                if info["switches"]:
+                    obs["cancel_x_completion_schedules_with_switch"] += 1
+                    keys.add(f"pair:{variant}:{info['trace_hash']}")
+                w2.wf_id = w2._exec_side("SELECT id FROM pipeline_executions LIMIT 1").fetchone()[0]
+                # the audit log of the copy starts at the cut: rows of the earlier history are needed for 'last writer'
+                run.audit = w2.audit()
+                v: list[dict] = []
+                _store_vs_replay(w2, run, w2.wf_id, obs, v)
+                for x in v:
+                    x.update(schedule=sc, pair=f"CancelStage x {other_type}")
+                out += v
+            finally:
+                w2.close()
+    finally:
+        os.unlink(db)
+    seen = set()
+    uniq = []
+    for x in out:
+        if x["sig"] not in seen:
+            seen.add(x["sig"])
+            x["spec"] = spec["name"]
+            uniq.append(x)
+    return {"violations": uniq, "obs": dict(obs), "keys": sorted(keys)}
+
+
 def run_case(case: dict) -> dict:
     if case.get("kind") == "race":
         return _race(case)
+    if case.get("kind") == "pair":
+        return _pair(case)
     from stabilize.events import EventReplayer, SqliteEventStore
     from stabilize.events.base import EntityType
     from stabilize.events.snapshots import Snapshot, SnapshotStore
